@@ -410,12 +410,32 @@ def classes(ctx):
     return [("CaselessDict", CaselessDict), ("Parameters", Parameters), ("Event", Event)]
 
 
-def run_sequence(cls, clsname, ops):
-    """real object and plain-dict reference side by side; returns per-step observations"""
+def sorted_view(d):
+    """sorted_keys() / sorted_items() of the real object"""
+    try:
+        return [list(d.sorted_keys()), [[k, v] for k, v in d.sorted_items()]]
+    except Exception as e:  # noqa: BLE001
+        return ["err", type(e).__name__]
+
+
+def sorted_spec(d):
+    """what they must be, from the mapping's own content: canonical names first in canonical order, the rest sorted"""
+    ks = list(d.keys())
+    order = list(getattr(d, "canonical_order", None) or ())
+    head = [k for k in order if k in ks]
+    keys = head + sorted(k for k in ks if k not in head)
+    return [keys, [[k, d[k]] for k in keys]]
+
+
+def run_sequence(cls, clsname, ops, watch=False):
+    """real object and plain-dict reference side by side; returns per-step observations.  [watch]: the sorted
+    views are read between the operations too (a sequence is run both ways, so that reading them is shown to
+    neither change nor stale anything)"""
     d = cls()
     ref = {}
     rows = []
-    for o in ops:
+    stale = None
+    for n, o in enumerate(ops):
         if clsname == "Event" and o["op"] in ("eq", "ne", "eq_nonmapping"):
             o = {"op": "len"}
         d, r = impl_step(cls, d, o)
@@ -425,11 +445,20 @@ def run_sequence(cls, clsname, ops):
         rows.append((o, r, state, rr, rstate))
         if state != rstate:
             ref = dict(d.items())          # resynchronise after a (classified) deviation
+        if (watch or n == len(ops) - 1) and stale is None and isinstance(d, dict):
+            got, want = sorted_view(d), sorted_spec(d)
+            if got != want:
+                stale = (n, got, want)
+    SORTED_PROBLEMS.append(stale)
     return rows
+
+
+SORTED_PROBLEMS = []
 
 
 def run(ctx, res):
     from icalendar.caselessdict import CaselessDict, canonsort_keys, canonsort_items
+    del SORTED_PROBLEMS[:]
     M = ctx.model
     known = ctx.known
     seqs = gen_sequences(ctx)
@@ -445,9 +474,17 @@ def run(ctx, res):
     for kind, ops in seqs:
         which = cls_list if (kind.startswith("random") or kind.startswith("sampled") or kind == "corpus") else cls_list[:1]
         for clsname, cls in which:
-            rows = run_sequence(cls, clsname, ops)
+            # half of the sequences are run with the sorted views read after every operation
+            watch = (len(meta) % 2 == 0)
+            rows = run_sequence(cls, clsname, ops, watch)
             eff_ops = [r[0] for r in rows]
+            stale = SORTED_PROBLEMS[-1]
+            if stale is not None:
+                res.fail("C17 sorted_keys/sorted_items are not the canonical ordering of the mapping's present content",
+                         {"class": clsname, "ops": eff_ops[:stale[0] + 1], "views read between operations": watch},
+                         observed=stale[1], expected=stale[2])
             res.dist(kind + ":" + clsname)
+            res.dist("sorted views " + ("watched" if watch else "read at the end"))
             nontriv = any(("k" in o and (o["k"][0] == 1 or o["k"][1] != o["k"][1].upper())) or
                           any(kk[0] == 1 or kk[1] != kk[1].upper() for kk, _ in o.get("items", []))
                           for o in eff_ops)
@@ -550,7 +587,8 @@ def replay(ctx, data):
     inp = data["input"]
     if isinstance(inp, dict) and "ops" in inp:
         cls = dict(classes(ctx))[inp["class"]]
-        rows = run_sequence(cls, inp["class"], inp["ops"])
+        rows = run_sequence(cls, inp["class"], inp["ops"], bool(inp.get("views read between operations")))
+        print("sorted views:", SORTED_PROBLEMS[-1])
         for o, r, state, rr, rstate in rows:
             print("op", wire_op(o), "\n  impl:", r, state, "\n  dict:", rr, rstate)
         if ctx.model:
